@@ -70,6 +70,8 @@ def get_attr(I, v, name):
             return itp.BoundMethod(v.cls, d.__func__, name)
         if isinstance(d, types.FunctionType):
             return itp.BoundMethod(v, d, name)
+        if isinstance(d, (types.MethodDescriptorType, types.WrapperDescriptorType, types.BuiltinFunctionType)) and name not in ("__class__",):
+            return itp.BoundMethod(v, d, name)  # method of an external (C-implemented) class: needs an external model
         if isinstance(d, types.MemberDescriptorType):  # __slots__ entry never assigned
             if not I.spec:
                 I.raise_py(AttributeError, name)
